@@ -722,6 +722,9 @@ impl<'a, I: PrimInt, T: Clone> Iterator for IterDepth<'a, I, T>
         let mut new_depth_at_point = depth_at_point;
         while new_depth_at_point == depth_at_point && self.curr_merged_pos < interval.stop {
             self.curr_merged_pos = self.curr_merged_pos + one::<I>();
+            if self.curr_merged_pos == interval.stop {
+                break;
+            }
             new_depth_at_point = self
                 .inner
                 .seek(
